@@ -354,7 +354,12 @@ partial def encodeLoop (h : IO.FS.Stream) (out : IO.FS.Stream) (lastCut : Nat) :
           | none => throw (IO.userError "encode: cutfrac without msgs")
           | some last =>
             let e := Spec.enc last
-            let k0 := 1 + (e.length - 2) * frac / 1000
+            -- optional: cut `cutdelta` bytes after the `cutbound`-th flowset boundary instead
+            let k0 := match j.getObjValAs? Nat "cutbound", j.getObjValAs? Nat "cutdelta" with
+              | .ok bi, .ok dl =>
+                let bs0 := (setBoundaries last).reverse
+                if bs0.isEmpty then 1 + (e.length - 2) * frac / 1000 else bs0.getD (bi % bs0.length) 20 + dl
+              | _, _ => 1 + (e.length - 2) * frac / 1000
             let bs := setBoundaries last
             let k := if bs.contains k0 then (if k0 + 1 < e.length then k0 + 1 else k0 - 1) else k0
             let k := if k ≥ e.length then e.length - 1 else k
